@@ -74,11 +74,11 @@ KIND_INFO = {
 
 EXC_CLASS = {"zde": "ZeroDivisionError", "boom": "Boom", "none": "NoneReturnedError",
              "depth": "DeepReferenceError", "kbi": "KeyboardInterrupt", "stop": "StopIteration",
-             "badret": "ValueError"}
+             "badret": "ValueError", "badrefs": None}     # None: whatever modelx raises for it
 HANDLER_CLASS = {"zde": "ZeroDivisionError", "boom": "Boom", "exc": "Exception", "base": "BaseException"}
 # which simulated exception kinds a handler class catches
-HANDLES = {"zde": {"zde"}, "boom": {"boom"}, "exc": {"zde", "none", "depth", "stop", "badret"},
-           "base": {"zde", "none", "depth", "boom", "kbi", "stop", "badret"}}
+HANDLES = {"zde": {"zde"}, "boom": {"boom"}, "exc": {"zde", "none", "depth", "stop", "badret", "badrefs"},
+           "base": {"zde", "none", "depth", "boom", "kbi", "stop", "badret", "badrefs"}}
 
 
 class Dep:
@@ -129,7 +129,9 @@ class Node:
 class Spec:
     """Current definitions of the generated model (mutated by the edits of a history)."""
 
-    def __init__(self, nodes, space_allow=None, model_allow=False, deep_cached=True):
+    def __init__(self, nodes, space_allow=None, model_allow=False, deep_cached=True, pad=False, lam_multi=False):
+        self.pad = pad                  # blank + comment lines after the def line (line arithmetic)
+        self.lam_multi = lam_multi      # lambda formulas spread over several lines
         self.nodes = nodes
         self.n = len(nodes)
         self.space_allow = dict(space_allow or {})      # home -> None/True/False
@@ -142,7 +144,7 @@ class Spec:
 
     def key(self):
         return (tuple(nd.key() for nd in self.nodes), tuple(sorted(self.space_allow.items(), key=repr)),
-                self.model_allow, self.deep_cached)
+                self.model_allow, self.deep_cached, self.pad, self.lam_multi)
 
     def k(self, j):
         return 3 ** j
@@ -210,7 +212,8 @@ class Spec:
 
     def render(self, j):
         """-> (formula text, program with 'line' filled in = the line the formula's own frame shows)."""
-        ck = (self.nodes[j].key(), self.deep_cached, tuple((nd.j, nd.kind) for nd in self.nodes))
+        ck = (self.nodes[j].key(), self.deep_cached, self.pad, self.lam_multi,
+              tuple((nd.j, nd.kind) for nd in self.nodes))
         r = self._render.get(ck)
         if r is None:
             r = self._render[ck] = self._render_nocache(j)
@@ -236,10 +239,19 @@ class Spec:
                     if f.cond:
                         t = "(%s if _space.f%d else 0)" % (t, j)
                     terms.append(t)
+            if self.lam_multi and len(terms) > 1:
+                k = 0
+                for st in prog:
+                    if st["op"] in ("K", "CALL", "FAIL"):
+                        k += 1
+                        st["line"] = k
+                return "lambda: (" + " +\n    ".join(terms) + ")", prog
             return "lambda: " + " + ".join(terms), prog
         head = "def %s(%s):" % ("_formula" if nd.kind == "Z" else "c%d" % j,
                                 "k" if nd.kind == "Z" else ("x" if nd.param else ""))
         lines = [head]
+        if self.pad:
+            lines += ["", "    # padding"]
 
         def emit(text):
             lines.append(text)
@@ -289,6 +301,8 @@ class Spec:
             return emit(ind + "return None")
         if k == "badret":           # a space formula must return a dict or None
             return emit(ind + "return 5")
+        if k == "badrefs":          # ... whose 'refs' is a dict
+            return emit(ind + "return {'refs': 5}")
         if k == "depth":
             return emit(ind + "acc += " + self.deep_expr(j))
         if k == "zde":
@@ -560,9 +574,9 @@ class Sim:
                             break
                         fr[1] = None
                         self._raise("none", j)
-                    elif f.kind == "badret":
+                    elif f.kind in ("badret", "badrefs"):
                         fr[1] = None        # raised by modelx after the space formula returned
-                        self._raise("badret", j)
+                        self._raise(f.kind, j)
                     elif f.kind == "depth":
                         acc += self._deep(j)
                     else:
@@ -594,22 +608,24 @@ def pure_value(spec, j):
 G_KIND_POOL = "SSPPUVLDOKIZ"
 G_STYLES = ["plain", "plain", "comp", "gen", "lam", "sub", "multi"]
 G_SITES = {"zde": ["direct", "comp", "gen", "nested", "helper"], "boom": ["direct", "comp", "gen", "nested", "helper"],
-           "none": ["direct"], "depth": ["direct"], "kbi": ["direct"], "badret": ["direct"]}
+           "none": ["direct"], "depth": ["direct"], "kbi": ["direct"], "badret": ["direct"], "badrefs": ["direct"]}
 G_MAIN_KINDS = ["zde", "boom", "none", "depth"]
 HANDLER_FOR = {"zde": ["zde", "exc", "base"], "boom": ["boom", "base"], "none": ["exc", "base"],
-               "depth": ["exc", "base"], "kbi": ["base"], "badret": ["exc", "base"]}
+               "depth": ["exc", "base"], "kbi": ["base"], "badret": ["exc", "base"], "badrefs": ["exc", "base"]}
 NONHANDLER_FOR = {"zde": ["boom"], "boom": ["zde", "exc"], "none": ["zde", "boom"], "depth": ["zde", "boom"],
-                  "kbi": ["exc", "zde"], "badret": ["zde", "boom"]}
+                  "kbi": ["exc", "zde"], "badret": ["zde", "boom"], "badrefs": ["zde", "boom"]}
 
 
-def legal_pair(kind, fkind):
+def legal_pair(kind, fkind, rnd=None):
     """(element kind, failure kind) that exist: an uncached cells may return None, only a space formula can
     return a bad value, a lambda cannot contain a raise statement."""
     if fkind == "none" and kind == "Z":
         fkind = "badret"
+    if fkind == "badret" and kind == "Z" and rnd is not None and rnd.random() < 0.4:
+        fkind = "badrefs"
     if fkind == "none" and kind in "UV":
         kind = "S"
-    if fkind == "badret" and kind != "Z":
+    if fkind in ("badret", "badrefs") and kind != "Z":
         fkind = "zde"
     if fkind == "kbi" and kind == "L":
         kind = "S"
@@ -620,7 +636,7 @@ def make_handled_spec(n, deps, p, fkind, rnd, extra=False, escape=True):
     """DAG -> Spec in which element p raises `fkind` (escaping) and, usually, another element raises a failure
     that all / some of its callers handle with try/except.  -> (spec, small_limit, errmode, ph)"""
     kinds = [rnd.choice(G_KIND_POOL) for _ in range(n)]
-    kinds[p], fkind = legal_pair(kinds[p], fkind)
+    kinds[p], fkind = legal_pair(kinds[p], fkind, rnd)
     ph, hkind = None, None
     cands = [j for j in range(n) if j != p and any(j in deps[c] for c in range(n))]
     if not escape:
@@ -629,7 +645,7 @@ def make_handled_spec(n, deps, p, fkind, rnd, extra=False, escape=True):
     elif cands and rnd.random() < 0.8:
         ph = rnd.choice(cands)
         hkind = rnd.choice(G_MAIN_KINDS + (["kbi"] if extra else []))
-        kinds[ph], hkind = legal_pair(kinds[ph], hkind)
+        kinds[ph], hkind = legal_pair(kinds[ph], hkind, rnd)
     handle_all = rnd.random() < (0.85 if not escape else 0.7)
     nodes = []
     for j in range(n):
@@ -660,6 +676,6 @@ def make_handled_spec(n, deps, p, fkind, rnd, extra=False, escape=True):
     if ph is not None and ph != p:
         nodes[ph].fail = Fail(hkind, rnd.randrange(len(nodes[ph].deps) + 1), rnd.choice(G_SITES[hkind]))
     small = "depth" in (fkind, hkind)
-    spec = Spec(nodes, deep_cached=rnd.random() < 0.7)
+    spec = Spec(nodes, deep_cached=rnd.random() < 0.7, pad=rnd.random() < 0.3, lam_multi=rnd.random() < 0.5)
     errmode = rnd.choice(["formula-error"] * 4 + ["original", "handled"])
     return spec, small, errmode, ph
